@@ -29,7 +29,7 @@ BASE_CFLAGS = ["-std=c99", "-DNDEBUG", "-DREPROC_MULTITHREADED",
 
 CBMC_FLAGS = ["--no-malloc-may-fail", "--drop-unused-functions",
               "--unwinding-assertions", "--signed-overflow-check",
-              "--undefined-shift-check", "--json-ui",
+              "--undefined-shift-check", "--object-bits", "12", "--json-ui",
               "--verbosity", "8"]
 
 
@@ -52,6 +52,63 @@ def sh(cmd, timeout=None, mem_gb=None, env=None, cwd=None):
     except subprocess.TimeoutExpired as e:
         out = (e.stdout or b"").decode("utf-8", "replace")
         return -9, out, "TIMEOUT after %ss" % timeout, time.time() - t0
+
+
+def sh_race(cmds, timeout=None, mem_gb=None):
+    """Run several equivalent commands (different SAT back ends) concurrently; the first
+    one that terminates by itself wins, the others are killed."""
+    import signal
+    import tempfile
+
+    def limits():
+        if mem_gb:
+            b = int(mem_gb * (1 << 30))
+            resource.setrlimit(resource.RLIMIT_AS, (b, b))
+        os.setsid()
+    t0 = time.time()
+    procs = []
+    for label, cmd in cmds:
+        out = tempfile.TemporaryFile()
+        err = tempfile.TemporaryFile()
+        procs.append((label, subprocess.Popen(cmd, stdout=out, stderr=err, preexec_fn=limits), out, err))
+    winner = None
+    try:
+        while winner is None:
+            for label, pr, out, err in procs:
+                rc = pr.poll()
+                if rc is not None and rc >= 0:
+                    out.seek(0)
+                    txt = out.read().decode("utf-8", "replace")
+                    if '"result"' in txt or len(procs) == 1:
+                        winner = (label, rc, txt)
+                        break
+            if winner is None:
+                if all(pr.poll() is not None for _, pr, _, _ in procs):
+                    label, pr, out, err = procs[0]
+                    out.seek(0)
+                    err.seek(0)
+                    winner = (label, pr.returncode, out.read().decode("utf-8", "replace"))
+                    break
+                if timeout and time.time() - t0 > timeout:
+                    winner = ("timeout", -9, "")
+                    break
+                time.sleep(0.2)
+    finally:
+        for label, pr, out, err in procs:
+            if pr.poll() is None:
+                try:
+                    os.killpg(pr.pid, signal.SIGKILL)
+                except OSError:
+                    pass
+                pr.wait()
+    return winner[0], winner[1], winner[2], "", time.time() - t0
+
+
+SOLVER_FLAGS = {
+    "minisat": [],
+    "cadical": ["--sat-solver", "cadical"],
+    "kissat": ["--external-sat-solver", "kissat"],
+}
 
 
 def repo_functions():
@@ -87,7 +144,8 @@ class Job:
     def __init__(self, harness, variant="", defines=None, unwind=4, unwindset=None,
                  model=True, shim=True, extra_src=None, timeout=900, mem_gb=24,
                  entry="harness", cflags=None, cbmc_flags=None, prepare=None,
-                 bounds=None, no_repo_include=False, loop_rules=None, params=None):
+                 bounds=None, no_repo_include=False, loop_rules=None, params=None,
+                 solvers=("cadical",)):
         self.harness = harness
         self.variant = variant
         self.defines = dict(defines or {})
@@ -107,6 +165,7 @@ class Job:
         self.loop_rules = list(loop_rules or [])
         self.params = dict(params or {})
         self.auto_unwindset = []
+        self.solvers = tuple(solvers)
 
     @property
     def name(self):
@@ -218,6 +277,10 @@ def compute_unwindset(job, goto):
             continue
         out.append("%s:%d" % (name, bound))
         table.append({"loop": name, "bound": bound, "where": "%s:%d" % (os.path.basename(f), ln)})
+    # recursion: reproc_poll calls itself only on the Windows socket path; on POSIX the
+    # recursion unwinding assertion proves that branch unreachable
+    if any((lp.get("name") or "").startswith("reproc_poll.") for lp in loops):
+        out.append("reproc_poll:1")
     return out, table
 
 
@@ -230,6 +293,7 @@ DEFAULT_LOOP_RULES = [
     (r"written < size", lambda j: j.params.get("input_max", 3) + 2),
     (r"STRV_FOREACH", lambda j: j.params.get("strv_max", 3) + 2),
     (r"^fd_in_set ", 7),
+    (r"num_sources|num_pipes", lambda j: 4 * j.params.get("n_sources", 1) + 2),
     (r"ARRAY_SIZE\((redirect|actions)\)", 4),
     (r"^(strlen|strcpy|strchr|strcmp|strncmp|memcpy|memset|memmove|wcslen|wcscpy|wcschr) ",
      lambda j: j.params.get("str_max", 8) + 2),
@@ -316,7 +380,7 @@ def extract_choices(trace):
             if name.split("$")[0] == "vp_choice":
                 if cur is not None:
                     ch.append(cur)
-                cur = {"lo": 0, "v": None, "ret": None}
+                cur = {"lo": 0, "hi": None, "v": None, "ret": None}
             continue
         if st == "function-return":
             name = (s.get("function") or {}).get("displayName", "")
@@ -339,11 +403,16 @@ def extract_choices(trace):
             cur["v"] = val
         elif base == "lo" and s.get("assignmentType") == "actual-parameter":
             cur["lo"] = val
+        elif base == "hi" and s.get("assignmentType") == "actual-parameter":
+            cur["hi"] = val
     if cur is not None:
         ch.append(cur)
     out = []
     for c in ch:
-        out.append(c["ret"] if c["ret"] is not None else c["v"] if c["v"] is not None else c["lo"])
+        val = c["ret"] if c["ret"] is not None else c["v"] if c["v"] is not None else c["lo"]
+        if val < c["lo"] or (c["hi"] is not None and val > c["hi"]):
+            val = c["lo"]  # the value was irrelevant to the failure (not constrained)
+        out.append(val)
     return out
 
 
@@ -422,8 +491,10 @@ def run_job(prop, job, run_dir, want_functions=True):
         job.auto_unwindset, loop_table = compute_unwindset(job, goto)
         info["bounds"]["loops"] = loop_table
         cmd = cbmc_cmd(job, goto)
-        rc, so, se, wall = sh(cmd, timeout=job.timeout, mem_gb=job.mem_gb)
-        info["cbmc_cmd"] = " ".join(cmd[:1] + ["<goto>"] + cmd[2:])
+        label, rc, so, se, wall = sh_race([(sv, cmd + SOLVER_FLAGS[sv]) for sv in job.solvers],
+                                          timeout=job.timeout, mem_gb=job.mem_gb)
+        info["solver_backend"] = label
+        info["cbmc_cmd"] = " ".join(cmd[:1] + ["<goto>"] + cmd[2:] + SOLVER_FLAGS.get(label, []))
         info["cbmc_wall_s"] = round(wall, 2)
         if rc == -9:
             raise Inconclusive("cbmc timed out after %ss" % job.timeout)
@@ -474,7 +545,7 @@ def run_job(prop, job, run_dir, want_functions=True):
         exe = None
         for r in failed_real[:6]:
             pname = r.get("property")
-            cmd2 = cbmc_cmd(job, goto, ["--property", pname, "--trace"])
+            cmd2 = cbmc_cmd(job, goto, ["--property", pname, "--trace"] + SOLVER_FLAGS.get(label, []))
             rc2, so2, se2, w2 = sh(cmd2, timeout=job.timeout, mem_gb=job.mem_gb)
             p2 = parse_cbmc_json(so2)
             trace = None
